@@ -37,8 +37,9 @@ func (e *Engine) attrConversions() []*ssa.Function {
 }
 
 // ownership classification of a reference-typed value stored into a conversion result.
-//   fresh  – allocated here / by a copying or converting callee / a value→pointer helper
-//   alias  – loaded from (or the address of a part of) the argument: caller and result share memory
+//
+//	fresh  – allocated here / by a copying or converting callee / a value→pointer helper
+//	alias  – loaded from (or the address of a part of) the argument: caller and result share memory
 func (e *Engine) ownership(v ssa.Value, fn *ssa.Function, seen map[ssa.Value]bool) (string, string) {
 	if seen[v] {
 		return "fresh", ""
@@ -177,9 +178,9 @@ func isAttrStructType(t types.Type) bool {
 
 func init() {
 	register(&Prop{
-		ID:    "C14",
-		Title: "Stored data is isolated from caller-owned memory",
-		Decided: "ownership of every reference (pointer, slice, map) that crosses the API boundary: (R1) in each attribute-value conversion function of both adapters (discovered by signature, both directions) every reference-typed component stored into the result originates from an allocation made by the conversion, a recursive conversion, a copying helper or a value→pointer helper – never from a load out of the argument nor from the address of a part of it; (R2) no address into a package-level singleton object escapes (shared with C18.R6); (R3) the outputs of the client data methods carry stored data only through such conversions; (R4) the table stores a private top-level map (shared with C01.R4).",
+		ID:         "C14",
+		Title:      "Stored data is isolated from caller-owned memory",
+		Decided:    "ownership of every reference (pointer, slice, map) that crosses the API boundary: (R1) in each attribute-value conversion function of both adapters (discovered by signature, both directions) every reference-typed component stored into the result originates from an allocation made by the conversion, a recursive conversion, a copying helper or a value→pointer helper – never from a load out of the argument nor from the address of a part of it; (R2) no address into a package-level singleton object escapes (shared with C18.R6); (R3) the outputs of the client data methods carry stored data only through such conversions; (R4) the table stores a private top-level map (shared with C01.R4).",
 		NotDecided: "sharing through user-supplied native callbacks (they receive the stored map by design); immutability of Go strings is relied upon (string headers may share bytes safely).",
 		Rules: []RuleDef{
 			{ID: "R1", Desc: "ownership of reference-typed components in every attribute-value conversion (T-COPY)", Run: c14R1},
